@@ -2504,6 +2504,11 @@ func (p *Parser) peekRune() rune {
 func (p *Parser) parseSource(subqueries bool) (Source, error) {
 	m := &Measurement{}
 
+	// In a source dots separate the database, the retention policy and the name. The scanner enters that mode after
+	// FROM and leaves it at the next later keyword: a source text that is parsed on its own has no FROM in front,
+	// and inside a FROM list an alias or a sub-query before this source has left the mode.
+	p.s.s.checkDOT = true
+
 	// Attempt to parse a regex.
 	re, err := p.parseRegex()
 	if err != nil {
